@@ -172,6 +172,8 @@ def run_check(pid, tier, seed, workers=None, cases=None, quiet=False):
     case_digests = {}
     patched = None
     violations = []
+    raw = []
+    done_sigs = set()
     for w, lines in enumerate(sweep):
         for l in lines:
             if l.get("type") == "stats":
@@ -196,6 +198,16 @@ def run_check(pid, tier, seed, workers=None, cases=None, quiet=False):
                 v = l["v"]
                 v["pythonhashseed"] = hs[w]
                 violations.append(v)
+                done_sigs.add((w, v["sig_id"], v.get("kf")))
+            elif l.get("type") == "violation_raw":
+                v = l["v"]
+                v["pythonhashseed"] = hs[w]
+                raw.append((w, v))
+
+    for w, v in raw:
+        if (w, v["sig_id"], v.get("kf")) not in done_sigs:
+            v["unminimised"] = True
+            violations.append(v)
 
     # ---- determinism echo
     det = {"compared": 0, "mismatches": []}
